@@ -89,6 +89,8 @@ def verify_function(eng, qualname):
                 if local not in s.env:
                     raise ContractError("%s: ghost return %s: no local named %s at return" % (qualname, gname, local))
                 env[gname] = s.env[local]
+            # vacuity canary: the hypotheses accumulated on (at least one) return path must be satisfiable
+            eng.oblige(s, "cover:return", 'cover', z3.BoolVal(False), fdef, expect_sat=True)
             for label, clause in c.labelled(c.ensures, 'post'):
                 t = eval_bool(eng, clause, env, s, old=old)
                 if label.startswith('def:'):
@@ -96,9 +98,8 @@ def verify_function(eng, qualname):
                     eng.assumed.add("definitional clause %s of %s" % (label, qualname))
                 else:
                     eng.oblige(s, "post:%s" % label, 'post', t, fdef)
-                s.assume(t)     # later clauses may use earlier ones (each is an obligation of its own)
-            # vacuity canary: the hypotheses accumulated on (at least one) return path must be satisfiable
-            eng.oblige(s, "cover:return", 'cover', z3.BoolVal(False), fdef, expect_sat=True)
+                if c.ghost.get('cumulative_posts') or label.startswith('def:'):
+                    s.assume(t)     # later clauses may use earlier ones (each is an obligation of its own)
             for exc, cond in c.raises.items():
                 if cond is None:        # may raise; the exact condition is not part of the contract
                     continue
